@@ -7,6 +7,7 @@ import (
 	"io"
 	"math/rand"
 	"strings"
+	"sync"
 	"time"
 
 	mqtt "github.com/at-wat/mqtt-go"
@@ -34,6 +35,9 @@ func c19APIcases(tier string) []fw.Case {
 		}
 	}
 	cs = append(cs, fw.Mk("api/misc", c19API{Mode: "api", Kind: "misc", Rep: scale(tier, 2, 300)}))
+	for _, cause := range []string{"malformed", "overlong-length", "eof"} {
+		cs = append(cs, fw.Mk("api/connection-end-cause/"+cause, c19API{Mode: "api", Kind: "endcause", Cause: cause, Rep: scale(tier, 4, 200)}))
+	}
 	for i, w := range []string{"q1x3", "q2x2", "mixed", "waits"} {
 		cs = append(cs, fw.Mk(fmt.Sprintf("api/response-timeouts-%d-%s", i, w), c19API{Mode: "api", Kind: "timeouts", Cause: w, Rep: 1}))
 	}
@@ -59,6 +63,8 @@ func c19APIRun(c fw.Case, env *fw.Env) fw.Result {
 		var trc []string
 		if p.Kind == "misc" {
 			sig, det = c19Misc()
+		} else if p.Kind == "endcause" {
+			sig, det, trc = c19EndCause(p.Cause, i)
 		} else if p.Kind == "timeouts" {
 			sig, det, trc = c19Timeouts(p.Cause, r.Counters)
 		} else if p.Kind == "chain" {
@@ -603,6 +609,69 @@ func c19Timeouts(wname string, counters map[string]int) (sig, detail string, tra
 				}
 			}
 		}
+	}
+	return "", "", nil
+}
+
+// c19EndCause: the error that ended a connection stays inspectable through Err() and the Closed callback, also when
+// the transport's Close reports an error of its own.
+func c19EndCause(cause string, i int) (sig, detail string, trace []string) {
+	tr := memnet.NewTrace()
+	peer := &scen.Script{Tr: tr, AutoConnack: true}
+	var cbErr error
+	var cbSeen bool
+	var mu sync.Mutex
+	conn := tr.NewConn(peer)
+	cli := &mqtt.BaseClient{Transport: conn}
+	cli.ConnState = func(s mqtt.ConnState, err error) {
+		if s == mqtt.StateClosed {
+			mu.Lock()
+			cbErr, cbSeen = err, true
+			mu.Unlock()
+		}
+	}
+	closeErr := errors.New("transport: close notify could not be sent")
+	if i%2 == 0 {
+		conn.CloseErr = closeErr
+	}
+	conn.Chunk = []int{0, 1, 3}[i%3]
+	if err := scen.ConnectBase(cli); err != nil {
+		return "inconclusive", err.Error(), nil
+	}
+	defer cli.Close()
+	var want error
+	switch cause {
+	case "malformed":
+		want = mqtt.ErrInvalidPacket
+		conn.Send([]byte{0x36, 0x03, 0x00, 0x01, 'x'}, "malformed")
+	case "overlong-length":
+		want = mqtt.ErrInvalidPacketLength
+		conn.Send([]byte{0x30, 0x80, 0x80, 0x80, 0x80, 0x01}, "over-long length field")
+	case "eof":
+		want = io.EOF
+		conn.PeerClose("peer closes")
+	}
+	select {
+	case <-cli.Done():
+	case <-time.After(scen.Watchdog):
+		return "inconclusive", "Done not closed", tr.Dump(30)
+	}
+	for k := 0; k < 2000; k++ {
+		mu.Lock()
+		seen := cbSeen
+		mu.Unlock()
+		if seen {
+			break
+		}
+		time.Sleep(100 * time.Microsecond)
+	}
+	mu.Lock()
+	defer mu.Unlock()
+	if !errors.Is(cli.Err(), want) {
+		return "cause-not-inspectable:connection-end", fmt.Sprintf("connection ended by %s (transport Close error: %v): errors.Is(Err(), %v) is false; Err() = %v", cause, conn.CloseErr, want, cli.Err()), tr.Dump(30)
+	}
+	if cbSeen && !errors.Is(cbErr, want) {
+		return "cause-not-inspectable:connection-end", fmt.Sprintf("connection ended by %s (transport Close error: %v): the Closed callback got %v, errors.Is(.., %v) is false", cause, conn.CloseErr, cbErr, want), tr.Dump(30)
 	}
 	return "", "", nil
 }
